@@ -71,11 +71,11 @@ def run(ctx):
         "distinct_nontrivial": len(shapes),
         "rule": "pipelines over outcome classes enumerated by TLC (MC_C03: all sequences up to the tier's length over "
                 "{echo,get,argerr,unknown,handler-error,handler-nil,handler-msg+err,QUIT,non-array frames} and the password "
-                "variant, x chunkings whole/1-byte/per-request/every 2-way split) and every registered command x every argument "
+                "variant, x chunkings whole/1-byte/per-request/every 2-way split/complete requests plus a proper prefix of the next), requests of 1022..4100 elements, and every registered command x every argument "
                 "vector of MC_Cmd placed between two ECHOs; distinct = distinct (command, arity) pipelines; all are non-trivial "
                 "(each has at least one request whose reply must be paired)",
         "samples": samples or [{"requests": connlib.request_names(lines[scs[0]])}],
         "exhaustive": True, "pipelines": npipes, "command_vectors": ncmds,
     }, assumptions=["liveness is judged when the scripted transport's Read is called with an empty buffer (block event); "
                     "a watchdog of 3 s without block/return is a stall, confirmed by the goroutine dump showing the loop runnable",
-                    "each reply frame may span several writes but one write holds at most one frame"])
+                    "a reply frame may span several writes and a write may hold several frames; handler calls are attributed to requests when their reply frame completes"])
